@@ -211,7 +211,7 @@ def gen_crash_scenario(rng, sid, seed=None):
     return ("SIM", sid, lines), feat, seed
 
 
-def gen_scenario(rng, sid, feat=None, nops=None, seed=None):
+def gen_scenario(rng, sid, feat=None, nops=None, seed=None, partial_readd=True):
     if feat is None and rng.random() < 0.2:
         return gen_link_scenario(rng, sid, seed)
     if feat is None and rng.random() < 0.18:
@@ -285,7 +285,9 @@ def gen_scenario(rng, sid, feat=None, nops=None, seed=None):
                 crashed.discard(nd)
                 lines.append("OP RECOVER %d" % nd)
                 # sometimes only a part of the node's processes is started again: the others must be gone
-                partial = rng.random() < 0.25
+                # (not in hand-off scenarios: a snapshot in which a located process is not installed is outside the
+                # hypotheses of C04 / C15 - simulator and checker both panic on a delivery to it)
+                partial = partial_readd and rng.random() < 0.25
                 for p in range(nprocs):
                     if placement[p] == nd and not (partial and rng.random() < 0.5):
                         lines.append("OP ADDPROC %d %d" % (p, nd))
